@@ -43,3 +43,393 @@ Theorem C16_no_getter : forall c Ld Rt, load c = Some Ld -> wf_loadedb Ld = true
   get_all Ld Rt F search attrs enc = Ok [].
 Proof. exact get_all_no_getter. Qed.
 Print Assumptions C16_no_getter.
+
+(** ** Getter <-> Finder over data sets and histories (Data/GetterDefs.v, Data/GetterProofs.v).
+
+    The record of one Sid: [record_from stored x attrs enc] = [project_record (with_sid enc x (stored_record stored)) attrs],
+    where [stored] is what the sidecar of the Sid's path holds, [stored_record] turns it into a mapping (every value [Some v]),
+    [with_sid] does  data["sid"] = e  when the encoder gives a truthy string e ([sid_entry]; in place when the stored data has a
+    key "sid" already, else appended) and [project_record] is the attributes projection of Data/Data.v.  [full_keys] / [full_val]
+    are the keys and the values of the full mapping. *)
+From Spil Require Import Search.TreeListDefs Search.AlgebraDefs Data.CreateDefs Data.HistoryDefs Data.HistoryProofs
+  Data.GetterDefs Data.GetterProofs.
+
+(* what [record_from] is, for the two shapes of the attributes list *)
+Theorem C16_record_from_spec : forall (stored : dict string) (x : sid) (enc : encoder),
+  (record_from stored x [] enc = with_sid enc x (stored_record stored) /\
+   map fst (record_from stored x [] enc) =
+     match sid_entry enc x with
+     | Some _ => if in_list "sid" (dkeys stored) then dkeys stored else (dkeys stored ++ ["sid"])%list
+     | None => dkeys stored
+     end) /\
+  (forall attrs, attrs <> [] ->
+     record_from stored x attrs enc = map (fun k => (k, full_val stored x enc k)) attrs /\
+     map fst (record_from stored x attrs enc) = attrs) /\
+  (forall attrs k, In k (map fst (record_from stored x attrs enc)) ->
+     dget (record_from stored x attrs enc) k = Some (full_val stored x enc k)) /\
+  (forall e, sid_entry enc x = Some e -> full_val stored x enc "sid" = Some e) /\
+  (forall k, k <> "sid" -> full_val stored x enc k = dget stored k).
+Proof.
+  intros stored x enc. split; [exact (record_from_full stored x enc)|].
+  split; [intros attrs; exact (record_from_attrs stored x attrs enc)|].
+  split; [intros attrs k; exact (record_from_value stored x attrs enc k)|].
+  split; [intros e; exact (full_val_sid stored x enc e) | intros k; exact (full_val_other stored x enc k)].
+Qed.
+Print Assumptions C16_record_from_spec.
+
+(* the first sentence of the property at full strength, for every tree: one record per found Sid, in the same order; the i-th
+   record is built from what the sidecar of the path of the i-th found Sid holds, with the "sid" entry; without an attributes list
+   its keys are those of the stored data plus "sid" when the encoder gives a truthy string; with one, exactly the attributes
+   (missing ones None).  A found string whose re-read Sid has no path under the configuration gets the empty mapping
+   (get_data returns {} then): this case cannot be excluded for an arbitrary tree. *)
+Theorem C16_get_paths_records : forall c Ld, load c = Some Ld -> wf_loadedb Ld = true ->
+  forall F cfg s attrs enc recs, get_paths Ld F cfg s attrs enc = Ok recs ->
+  exists found, ffind Ld F (FPaths "" (default_cfg Ld cfg)) s = Ok found /\
+    List.length recs = List.length found /\
+    Forall2 (fun si r =>
+      exists x, Sid Ld si = Ok x /\
+        ((sid_path Ld x (default_cfg Ld cfg) = Ok None /\ r = []) \/
+         (exists p, sid_path Ld x (default_cfg Ld cfg) = Ok (Some p) /\
+            r = record_from (load_sidecar F (sidecar Ld p)) x attrs enc /\
+            (attrs = [] -> map fst r = full_keys (load_sidecar F (sidecar Ld p)) x enc) /\
+            (attrs <> [] -> map fst r = attrs) /\
+            (forall k, In k (map fst r) -> dget r k = Some (full_val (load_sidecar F (sidecar Ld p)) x enc k)))))
+      found recs.
+Proof. exact get_paths_records. Qed.
+Print Assumptions C16_get_paths_records.
+
+(* the same by positions *)
+Theorem C16_get_paths_records_nth : forall c Ld, load c = Some Ld -> wf_loadedb Ld = true ->
+  forall F cfg s attrs enc recs, get_paths Ld F cfg s attrs enc = Ok recs ->
+  exists found, ffind Ld F (FPaths "" (default_cfg Ld cfg)) s = Ok found /\
+    List.length recs = List.length found /\
+    forall i si, nth_error found i = Some si ->
+      exists r, nth_error recs i = Some r /\ record_of Ld (load_sidecar F) cfg attrs enc si r.
+Proof. exact get_paths_records_nth. Qed.
+Print Assumptions C16_get_paths_records_nth.
+
+(* after any history of create / set / update calls (guard: the written dicts have distinct keys) from any tree F0: every record
+   of get_paths is built from the overlay, in call order, of the successful writes to the sidecar of its Sid over what the
+   sidecar held in F0 *)
+Theorem C16_get_paths_after_history : forall c Ld Rt, load c = Some Ld -> wf_loadedb Ld = true ->
+  forall F0 ops cfg s attrs enc recs, hist_nodupb ops = true ->
+  get_paths Ld (fst (run_hist Ld Rt F0 ops)) cfg s attrs enc = Ok recs ->
+  exists found, ffind Ld (fst (run_hist Ld Rt F0 ops)) (FPaths "" (default_cfg Ld cfg)) s = Ok found /\
+    List.length recs = List.length found /\
+    forall i si, nth_error found i = Some si ->
+      exists r x, nth_error recs i = Some r /\ Sid Ld si = Ok x /\
+        ((sid_path Ld x (default_cfg Ld cfg) = Ok None /\ r = []) \/
+         (exists p, sid_path Ld x (default_cfg Ld cfg) = Ok (Some p) /\
+            r = project_record (with_sid enc x (stored_record
+                   (fold_left dupdate (writes_to Ld Rt (sidecar Ld p) F0 ops) (load_sidecar F0 (sidecar Ld p))))) attrs)).
+Proof. exact get_paths_after_history_nth. Qed.
+Print Assumptions C16_get_paths_after_history.
+
+(* ... with the keys / values clauses ([overlay Ld Rt F0 ops dp] is the fold above) *)
+Theorem C16_get_paths_after_history_records : forall c Ld Rt, load c = Some Ld -> wf_loadedb Ld = true ->
+  forall F0 ops cfg s attrs enc recs, hist_nodupb ops = true ->
+  get_paths Ld (fst (run_hist Ld Rt F0 ops)) cfg s attrs enc = Ok recs ->
+  exists found, ffind Ld (fst (run_hist Ld Rt F0 ops)) (FPaths "" (default_cfg Ld cfg)) s = Ok found /\
+    List.length recs = List.length found /\
+    Forall2 (record_of Ld (overlay Ld Rt F0 ops) cfg attrs enc) found recs.
+Proof. exact get_paths_after_history. Qed.
+Print Assumptions C16_get_paths_after_history_records.
+
+(* one Sid, any attributes list (C15_data_history_read is the case attrs = []) *)
+Theorem C16_get_data_after_history : forall Ld Rt F0 ops cfg x p attrs enc, hist_nodupb ops = true ->
+  sid_path Ld x (default_cfg Ld cfg) = Ok (Some p) ->
+  get_data_paths Ld (fst (run_hist Ld Rt F0 ops)) cfg x attrs enc =
+  Ok (record_from (fold_left dupdate (writes_to Ld Rt (sidecar Ld p) F0 ops) (load_sidecar F0 (sidecar Ld p))) x attrs enc).
+Proof. exact get_data_after_history. Qed.
+Print Assumptions C16_get_data_after_history.
+
+(** *** GetFromAll, after the repair of D30: the typed searches of the unfolding are grouped by the path configuration of their
+    Getter ([group_by_getter]) and each group is handed, as a whole, to that Getter's do_get; types without a path getter are in
+    no group.  [routed_to Rt cfg q]: the type of q has the getter [GPaths cfg]. *)
+
+(* what the groups are: no configuration twice; a group holds, in order, exactly the typed searches its configuration serves
+   (so it is never empty); every served typed search is in the group of its configuration *)
+Theorem C16_group_by_getter_spec : forall Rt qs,
+  NoDup (map fst (group_by_getter Rt qs)) /\
+  (forall g, In g (group_by_getter Rt qs) ->
+     snd g = filter (fun q => match getter_for Rt (s_type q) false with GPaths c0 => String.eqb c0 (fst g) | _ => false end) qs /\
+     snd g <> []) /\
+  (forall q cfg, In q qs -> getter_for Rt (s_type q) false = GPaths cfg ->
+     In (cfg, filter (routed_to Rt cfg) qs) (group_by_getter Rt qs)).
+Proof. exact group_by_getter_spec. Qed.
+Print Assumptions C16_group_by_getter_spec.
+
+Theorem C16_get_all_is_concat : forall Ld Rt F s attrs enc,
+  get_all Ld Rt F s attrs enc =
+  (do qs <- unfold_search Ld s false false;
+   do parts <- mapM (fun g => do_get_paths Ld F (fst g) (snd g) attrs enc) (group_by_getter Rt qs);
+   Ok (List.concat parts)).
+Proof. exact get_all_is_concat. Qed.
+Print Assumptions C16_get_all_is_concat.
+
+Theorem C16_get_all_ok_iff : forall Ld Rt F s attrs enc qs recs, unfold_search Ld s false false = Ok qs ->
+  (get_all Ld Rt F s attrs enc = Ok recs <->
+   exists parts, Forall2 (fun g part => do_get_paths Ld F (fst g) (snd g) attrs enc = Ok part) (group_by_getter Rt qs) parts /\
+                 recs = List.concat parts).
+Proof. exact get_all_ok_iff. Qed.
+Print Assumptions C16_get_all_ok_iff.
+
+Theorem C16_get_all_flat_map : forall Ld Rt F s attrs enc qs (h : string * list sid -> list record),
+  unfold_search Ld s false false = Ok qs ->
+  (forall g, In g (group_by_getter Rt qs) -> do_get_paths Ld F (fst g) (snd g) attrs enc = Ok (h g)) ->
+  get_all Ld Rt F s attrs enc = Ok (flat_map h (group_by_getter Rt qs)).
+Proof. exact get_all_flat_map. Qed.
+Print Assumptions C16_get_all_flat_map.
+
+(* the typed searches whose type has no path getter are in no group (they can be left out of the unfolding: same groups), so
+   they contribute no record and never make get_all fail: a failure is one of the unfolding, or of the do_get of one group;
+   every record comes from the do_get of one group.  C16_no_getter is the case where there is no group at all. *)
+Theorem C16_get_all_no_getter_types : forall Ld Rt F s attrs enc,
+  (forall qs, group_by_getter Rt qs =
+              group_by_getter Rt (filter (fun q => match getter_for Rt (s_type q) false with GPaths _ => true | _ => false end) qs)) /\
+  (forall qs g q, In g (group_by_getter Rt qs) -> In q (snd g) -> In q qs /\ getter_for Rt (s_type q) false = GPaths (fst g)) /\
+  get_all Ld Rt F s attrs enc =
+    (do qs <- unfold_search Ld s false false;
+     concat_mapM (fun g => do_get_paths Ld F (fst g) (snd g) attrs enc) (group_by_getter Rt (filter (has_path_getter Rt) qs))) /\
+  (forall e, get_all Ld Rt F s attrs enc = Raise e ->
+     unfold_search Ld s false false = Raise e \/
+     exists qs g, unfold_search Ld s false false = Ok qs /\ In g (group_by_getter Rt qs) /\
+       snd g = filter (routed_to Rt (fst g)) qs /\ snd g <> [] /\
+       do_get_paths Ld F (fst g) (snd g) attrs enc = Raise e) /\
+  (forall recs r, get_all Ld Rt F s attrs enc = Ok recs -> In r recs ->
+     exists qs g part, unfold_search Ld s false false = Ok qs /\ In g (group_by_getter Rt qs) /\
+       snd g = filter (routed_to Rt (fst g)) qs /\ snd g <> [] /\
+       do_get_paths Ld F (fst g) (snd g) attrs enc = Ok part /\ In r part).
+Proof.
+  intros Ld Rt F s attrs enc. split; [exact (group_by_getter_filter Rt)|]. split; [exact (group_member Rt)|].
+  split; [exact (get_all_no_getter_types Ld Rt F s attrs enc)|].
+  split; [exact (get_all_raise Ld Rt F s attrs enc) | exact (get_all_records_from Ld Rt F s attrs enc)].
+Qed.
+Print Assumptions C16_get_all_no_getter_types.
+
+(* one typed search with the path getter cfg' (one group of one): GetFromAll is GetFromPaths(cfg').  Needed: the search string
+   re-reads as a Sid (Finder.find begins with Sid(search); GetFromAll does not), and Finder.find does not take its shortcut, or the
+   shortcut searches the very typed search q.  Nothing is asked of the path configurations. *)
+Theorem C16_get_all_single : forall Ld Rt F s attrs enc x q cfg', Sid Ld s = Ok x ->
+  unfold_search Ld s false false = Ok [q] ->
+  getter_for Rt (s_type q) false = GPaths cfg' ->
+  (shortcut Ld s = false \/ q = x) ->
+  get_all Ld Rt F s attrs enc = get_paths Ld F cfg' s attrs enc.
+Proof. exact get_all_single. Qed.
+Print Assumptions C16_get_all_single.
+
+(* EVERY typed search of the unfolding is served by the one path configuration cfg': one group, the whole unfolding, and
+   GetFromAll IS GetFromPaths(cfg') -- as an equation of outcomes (failures included), with no independence hypothesis and no
+   restriction on "last" searches: the group is searched by one do_find, as FindInPaths.find does *)
+Theorem C16_get_all_eq_get_paths : forall Ld Rt F s attrs enc x qs cfg', Sid Ld s = Ok x -> shortcut Ld s = false ->
+  unfold_search Ld s false false = Ok qs ->
+  (forall q, In q qs -> getter_for Rt (s_type q) false = GPaths cfg') ->
+  group_by_getter Rt qs = match qs with [] => [] | _ => [(cfg', qs)] end /\
+  get_all Ld Rt F s attrs enc = get_paths Ld F cfg' s attrs enc.
+Proof. exact get_all_eq_get_paths. Qed.
+Print Assumptions C16_get_all_eq_get_paths.
+
+(* the mixed case: the typed searches that have a path getter all have cfg', the others have none and are dropped from the group:
+   GetFromAll is do_get of GetFromPaths(cfg') on the served typed searches, where FindInPaths.find searches them all *)
+Theorem C16_get_all_one_getter : forall Ld Rt F s attrs enc cfg' qs, unfold_search Ld s false false = Ok qs ->
+  (forall q cfg, In q qs -> getter_for Rt (s_type q) false = GPaths cfg -> cfg = cfg') ->
+  group_by_getter Rt qs = match filter (has_path_getter Rt) qs with [] => [] | l => [(cfg', l)] end /\
+  get_all Ld Rt F s attrs enc = do_get_paths Ld F cfg' (filter (has_path_getter Rt) qs) attrs enc.
+Proof.
+  intros Ld Rt F s attrs enc cfg' qs Hu H. split; [exact (group_by_getter_one Rt cfg' qs H)|].
+  exact (get_all_one_getter Ld Rt F s attrs enc cfg' qs Hu H).
+Qed.
+Print Assumptions C16_get_all_one_getter.
+
+Theorem C16_get_all_eq_get_paths_mixed : forall Ld Rt F s attrs enc x qs cfg', Sid Ld s = Ok x -> shortcut Ld s = false ->
+  unfold_search Ld s false false = Ok qs ->
+  (forall q cfg, In q qs -> getter_for Rt (s_type q) false = GPaths cfg -> cfg = cfg') ->
+  group_by_getter Rt qs = match filter (has_path_getter Rt) qs with [] => [] | l => [(cfg', l)] end /\
+  get_all Ld Rt F s attrs enc =
+  (do found <- do_find_g Ld (paths_star Ld F (default_cfg Ld cfg')) (filter (has_path_getter Rt) qs);
+   mapM (fun s0 => do x0 <- Sid Ld s0; get_data_paths Ld F cfg' x0 attrs enc) found) /\
+  ffind Ld F (FPaths "" (default_cfg Ld cfg')) s = do_find_g Ld (paths_star Ld F (default_cfg Ld cfg')) qs.
+Proof. exact get_all_eq_get_paths_mixed. Qed.
+Print Assumptions C16_get_all_eq_get_paths_mixed.
+
+(* so the records of GetFromAll are, one for one and in order, those of the Sids that FindInPaths(cfg') finds *)
+Theorem C16_get_all_length : forall c Ld Rt, load c = Some Ld -> wf_loadedb Ld = true ->
+  forall F s attrs enc x qs cfg' recs, Sid Ld s = Ok x -> shortcut Ld s = false ->
+  unfold_search Ld s false false = Ok qs ->
+  (forall q, In q qs -> getter_for Rt (s_type q) false = GPaths cfg') ->
+  get_all Ld Rt F s attrs enc = Ok recs ->
+  exists found, ffind Ld F (FPaths "" (default_cfg Ld cfg')) s = Ok found /\
+    List.length recs = List.length found /\
+    Forall2 (record_of Ld (load_sidecar F) cfg' attrs enc) found recs.
+Proof. exact get_all_length. Qed.
+Print Assumptions C16_get_all_length.
+
+(* kept, about FindInPaths alone (not needed for GetFromAll any more): over pairwise independent typed searches ([independent]:
+   different (type, pattern) globs and disjoint single results) it finds the concatenation of what it finds for each one alone *)
+Theorem C16_paths_star_concat : forall Ld cfg F qs parts,
+  Forall2 (fun q r => paths_star Ld F cfg [q] = Ok r) qs parts ->
+  ForallOrdPairs (fun q q' =>
+    (forall po po', sid_path Ld q cfg = Ok po -> sid_path Ld q' cfg = Ok po' ->
+       String.eqb (s_type q) (s_type q') && String.eqb (pattern_str po) (pattern_str po') = false) /\
+    (forall r r', paths_star Ld F cfg [q] = Ok r -> paths_star Ld F cfg [q'] = Ok r' -> forall s, In s r -> ~ In s r')) qs ->
+  paths_star Ld F cfg qs = Ok (List.concat parts).
+Proof. exact paths_star_concat. Qed.
+Print Assumptions C16_paths_star_concat.
+
+(* get_data: the record of that Sid; get_attr: one value of it *)
+Theorem C16_get_data_all_is_record : forall Ld Rt F s attrs enc x cfg, Sid Ld s = Ok x ->
+  getter_for Rt (s_type x) false = GPaths cfg ->
+  get_data_all Ld Rt F s attrs enc = get_data_paths Ld F cfg x attrs enc.
+Proof. exact get_data_all_is_record. Qed.
+Print Assumptions C16_get_data_all_is_record.
+
+Theorem C16_get_data_all_no_getter : forall Ld Rt F s attrs enc x, Sid Ld s = Ok x ->
+  (forall cfg, getter_for Rt (s_type x) false <> GPaths cfg) ->
+  get_data_all Ld Rt F s attrs enc = Ok [].
+Proof. exact get_data_all_no_getter. Qed.
+Print Assumptions C16_get_data_all_no_getter.
+
+Theorem C16_get_attr_is_value : forall Ld Rt F x a cfg, a <> "next.version" ->
+  getter_for Rt (s_type x) false = GPaths cfg ->
+  get_attr Ld Rt F x a =
+  (do r <- get_data_paths Ld F cfg x [] EncStr; Ok (match dget r a with Some v => v | None => None end)).
+Proof. exact get_attr_is_value. Qed.
+Print Assumptions C16_get_attr_is_value.
+
+Theorem C16_get_attr_value : forall Ld Rt F x a cfg p, a <> "next.version" ->
+  getter_for Rt (s_type x) false = GPaths cfg ->
+  sid_path Ld x (default_cfg Ld cfg) = Ok (Some p) ->
+  get_attr Ld Rt F x a = Ok (full_val (load_sidecar F (sidecar Ld p)) x EncStr a).
+Proof. exact get_attr_value. Qed.
+Print Assumptions C16_get_attr_value.
+
+Theorem C16_get_attr_no_getter : forall Ld Rt F x a, a <> "next.version" ->
+  (forall cfg, getter_for Rt (s_type x) false <> GPaths cfg) -> get_attr Ld Rt F x a = Ok None.
+Proof. exact get_attr_no_getter. Qed.
+Print Assumptions C16_get_attr_no_getter.
+
+(** ** Over a data set ([dataset_ok]: the tree holds exactly the paths of the Sids of E, everything else resolves to nothing; the
+    members contain no "?" and no ":"; [tree_guard0]: the typed searches FindInPaths globs are good searches of C11): every found
+    Sid is a member, re-reads as itself and has a path, so the empty-mapping case does not occur, every record is the full one,
+    and GetFromPaths never fails when FindInPaths does not *)
+From Spil Require Import Path.UnambiguousDefs Search.AlgebraTreeDefs Data.SidLevelDefs.
+
+Theorem C16_get_paths_records_dataset : forall c Ld, load c = Some Ld -> wf_loadedb Ld = true -> paths_unambiguousb Ld = true ->
+  forall cfg E F, dataset_ok Ld (default_cfg Ld cfg) E F -> (forall e, In e E -> plain_member e) ->
+  forall s attrs enc recs, tree_guard0 Ld (default_cfg Ld cfg) s ->
+  get_paths Ld F cfg s attrs enc = Ok recs ->
+  exists found, ffind Ld F (FPaths "" (default_cfg Ld cfg)) s = Ok found /\
+    List.length recs = List.length found /\
+    Forall2 (fun si r => exists x p, In x E /\ si = s_string x /\ Sid Ld si = Ok x /\
+                           sid_path Ld x (default_cfg Ld cfg) = Ok (Some p) /\
+                           r = record_from (load_sidecar F (sidecar Ld p)) x attrs enc) found recs.
+Proof. exact get_paths_records_dataset. Qed.
+Print Assumptions C16_get_paths_records_dataset.
+
+Theorem C16_get_paths_total_dataset : forall c Ld, load c = Some Ld -> wf_loadedb Ld = true -> paths_unambiguousb Ld = true ->
+  forall cfg E F, dataset_ok Ld (default_cfg Ld cfg) E F -> (forall e, In e E -> plain_member e) ->
+  forall s attrs enc found, tree_guard0 Ld (default_cfg Ld cfg) s ->
+  ffind Ld F (FPaths "" (default_cfg Ld cfg)) s = Ok found ->
+  get_paths Ld F cfg s attrs enc =
+  Ok (map (fun si => match Sid Ld si with
+                     | Ok x => match sid_path Ld x (default_cfg Ld cfg) with
+                               | Ok (Some p) => record_from (load_sidecar F (sidecar Ld p)) x attrs enc
+                               | _ => []
+                               end
+                     | Raise _ => []
+                     end) found).
+Proof. exact get_paths_total_dataset. Qed.
+Print Assumptions C16_get_paths_total_dataset.
+
+(** ** Instance on the configuration of this run: the history of C15_data_history_instance (two entities .../w/ma, .../w/mb that
+    share a sidecar, and hamlet/a/prop/skull) *)
+Definition L16 : Loaded := Hamlet.the_loaded.
+Definition Rt16 : Routing := match parse_routing Hamlet.raw with Some r => r | None => mkRouting [] [] false end.
+Definition ma16 : string := "hamlet/a/char/ophelia/model/v001/w/ma".
+Definition mb16 : string := "hamlet/a/char/ophelia/model/v001/w/mb".
+Definition skull16 : string := "hamlet/a/prop/skull".
+Definition whist16 : list wop :=
+  [ WUpdate "" ma16 [("a", "0")];
+    WCreate "" ma16 [("a", "1"); ("b", "1")];
+    WUpdate "" mb16 [("b", "9")];
+    WCreate "" mb16 [("b", "2"); ("c", "2")];
+    WCreate "" skull16 [("k", "v")];
+    WUpdate "" ma16 [("a", "3")];
+    WCreate "" ma16 [("z", "z")];
+    WUpdate "" skull16 [("k", "w"); ("m", "n")] ].
+Definition F16 : fs := fst (run_hist L16 Rt16 fs_root whist16).
+Definition s16 : string := "hamlet/a/char/ophelia/model/v001/w/*".
+
+Example C16_history_instance :
+  hist_nodupb whist16 = true /\
+  (* the search unfolds to three typed searches (cache_file, file, movie_file), all with the path getter "local" *)
+  (match unfold_search L16 s16 false false with
+   | Ok qs => Ok (map (fun q => (s_type q, getter_for Rt16 (s_type q) false)) qs)
+   | Raise e => Raise e end)
+  = Ok [("asset__cache_file", GPaths "local"); ("asset__file", GPaths "local"); ("asset__movie_file", GPaths "local")] /\
+  (* what the finder finds, and the overlay of the writes to the (shared) sidecar of the two found Sids *)
+  ffind L16 F16 (FPaths "" (default_cfg L16 "")) s16 = Ok [ma16; mb16] /\
+  map (fun s => option_map (overlay L16 Rt16 fs_root whist16) (target L16 "" s)) [ma16; mb16]
+  = [Some [("a", "3"); ("b", "2"); ("c", "2")]; Some [("a", "3"); ("b", "2"); ("c", "2")]] /\
+  (* the two records, in finder order, with the overlay data and "sid" *)
+  get_paths L16 F16 "" s16 [] EncStr
+  = Ok [[("a", Some "3"); ("b", Some "2"); ("c", Some "2"); ("sid", Some ma16)];
+        [("a", Some "3"); ("b", Some "2"); ("c", Some "2"); ("sid", Some mb16)]] /\
+  (* with an attributes list: exactly those keys *)
+  get_paths L16 F16 "" s16 ["a"; "zz"] EncStr
+  = Ok [[("a", Some "3"); ("zz", None)]; [("a", Some "3"); ("zz", None)]] /\
+  (* an encoder that returns None: no "sid"; the uri encoder; "sid" asked for as an attribute *)
+  get_paths L16 F16 "" s16 [] EncNone
+  = Ok [[("a", Some "3"); ("b", Some "2"); ("c", Some "2")]; [("a", Some "3"); ("b", Some "2"); ("c", Some "2")]] /\
+  get_paths L16 F16 "" s16 ["sid"; "c"] EncUri
+  = Ok [[("sid", Some ("asset__file:" ++ ma16)); ("c", Some "2")]; [("sid", Some ("asset__file:" ++ mb16)); ("c", Some "2")]] /\
+  (* GetFromAll answers the same *)
+  get_all L16 Rt16 F16 s16 [] EncStr = get_paths L16 F16 "local" s16 [] EncStr /\
+  get_all L16 Rt16 F16 s16 [] EncStr = get_paths L16 F16 "" s16 [] EncStr /\
+  (* a type configured without a Getter (asset__assettype): the finder finds, GetFromAll yields nothing *)
+  ffind L16 F16 (FPaths "" (default_cfg L16 "")) "hamlet/a/*" = Ok ["hamlet/a/char"; "hamlet/a/prop"] /\
+  get_all L16 Rt16 F16 "hamlet/a/*" [] EncStr = Ok [] /\
+  (* get_data / get_attr *)
+  get_data_all L16 Rt16 F16 ma16 [] EncStr = Ok [("a", Some "3"); ("b", Some "2"); ("c", Some "2"); ("sid", Some ma16)] /\
+  (match Sid L16 ma16 with
+   | Ok x => [get_attr L16 Rt16 F16 x "a"; get_attr L16 Rt16 F16 x "sid"; get_attr L16 Rt16 F16 x "zz"]
+   | Raise e => [] end)
+  = [Ok (Some "3"); Ok (Some ma16); Ok None].
+Proof. vm_compute. repeat split; reflexivity. Qed.
+Print Assumptions C16_history_instance.
+
+(* the hypotheses of C16_get_all_length hold on the instance (every typed search routed to "local"), so the theorem applies *)
+Example C16_get_all_length_instance : forall recs, get_all L16 Rt16 F16 s16 [] EncStr = Ok recs ->
+  exists found, ffind L16 F16 (FPaths "" (default_cfg L16 "local")) s16 = Ok found /\
+    List.length recs = List.length found /\
+    Forall2 (record_of L16 (load_sidecar F16) "local" [] EncStr) found recs.
+Proof.
+  intros recs H.
+  destruct (Sid L16 s16) as [x|e] eqn:Hs; [|vm_compute in Hs; discriminate].
+  destruct (unfold_search L16 s16 false false) as [qs|e] eqn:Hu; [|vm_compute in Hu; discriminate].
+  apply (C16_get_all_length Hamlet.the_conf L16 Rt16 Hamlet.the_loaded_eq Hamlet.conf_wf F16 s16 [] EncStr x qs "local" recs Hs);
+    try exact H; try exact Hu.
+  - vm_compute. reflexivity.
+  - vm_compute in Hu. inversion Hu; subst qs. intros q [<- | [<- | [<- | []]]]; vm_compute; reflexivity.
+Qed.
+Print Assumptions C16_get_all_length_instance.
+
+(* the witness of the former defect D30 (two typed searches of the SAME type asset__asset that both find hamlet/a/char/ophelia):
+   the two are one group, searched by one do_find, which records a path once: ONE record, as GetFromPaths and as the Finder *)
+Definition F16o : fs := fst (run_hist L16 Rt16 fs_root [WCreate "" "hamlet/a/char/ophelia" [("k", "v")]]).
+Definition s16o : string := "hamlet/a/char/ophelia,*".
+Example C16_get_all_overlap_instance :
+  (match unfold_search L16 s16o false false with
+   | Ok qs => Ok (map (fun q => (s_type q, s_string q)) qs, map fst (group_by_getter Rt16 qs),
+                  map (fun g => List.length (snd g)) (group_by_getter Rt16 qs))
+   | Raise e => Raise e end)
+  = Ok ([("asset__asset", "hamlet/a/char/*"); ("asset__asset", "hamlet/a/char/ophelia")], ["local"], [2]) /\
+  shortcut L16 s16o = false /\
+  ffind L16 F16o (FPaths "" (default_cfg L16 "local")) s16o = Ok ["hamlet/a/char/ophelia"] /\
+  get_all L16 Rt16 F16o s16o [] EncStr = Ok [[("k", Some "v"); ("sid", Some "hamlet/a/char/ophelia")]] /\
+  get_all L16 Rt16 F16o s16o [] EncStr = get_paths L16 F16o "local" s16o [] EncStr /\
+  (match get_all L16 Rt16 F16o s16o [] EncStr, ffind L16 F16o (FPaths "" (default_cfg L16 "local")) s16o with
+   | Ok recs, Ok found => Some (List.length recs, List.length found)
+   | _, _ => None end) = Some (1, 1).
+Proof. vm_compute. repeat split; reflexivity. Qed.
+Print Assumptions C16_get_all_overlap_instance.
